@@ -503,15 +503,28 @@ func runC16(c *eng.Ctx) {
 		trOf := eng.CallTo(fiT + ".timeRangeOfTimestamp")
 		ftOf := eng.CallTo(fiT + ".familyTimeOfTimestamp")
 		contains := eng.AnyCallTo("pkg/timeutil.TimeRange.Contains")
-		for _, fk := range []string{fiT + ".isSameFamily", fiT + ".HasNextFamily"} {
+		sameKey := fiT + ".isSameFamily"
+		if p.Func(sameKey) == nil {
+			sameKey = fiT + ".reset" // the scan written in place in its only caller
+		}
+		for _, fk := range []string{sameKey, fiT + ".HasNextFamily"} {
 			f := c.Fn(fk)
 			tr := c.One(f, trOf, "timeRangeOfTimestamp(first)")
 			ft := c.One(f, ftOf, "familyTimeOfTimestamp(first)")
 			a1 := eng.CallArgs(tr.Instr.(*ssa.Call))[0]
 			a2 := eng.CallArgs(ft.Instr.(*ssa.Call))[0]
 			c.Check(eng.SameValue(a1, a2), fk+":range-and-family-time-of-one-timestamp", ft.Instr, f, "the family time handed out and the range rows are tested against come from the same (first) timestamp", p.Desc(a1)+" vs "+p.Desc(a2))
-			st := c.One(f, eng.StoreField(fiT+".groupFamilyTime"), "itr.groupFamilyTime = ...")
-			v, _ := storedValue(st.Instr)
+			var st eng.Site
+			var v ssa.Value
+			for _, cand := range c.Some(f, eng.StoreField(fiT+".groupFamilyTime"), "itr.groupFamilyTime = ...") {
+				cv, _ := storedValue(cand.Instr)
+				if _, isConst := cv.(*ssa.Const); isConst && st.Instr != nil {
+					continue // a plain re-initialisation next to the computed store
+				}
+				if st.Instr == nil || cv == ft.Instr.(ssa.Value) {
+					st, v = cand, cv
+				}
+			}
 			c.Check(v == ft.Instr.(ssa.Value), fk+":group-family-time", st.Instr, f, "the group's family time is familyTimeOfTimestamp(first)", "stores "+p.Desc(v))
 			cs := c.Some(f, contains, "timeRange.Contains(row timestamp)")
 			for i, cn := range cs {
@@ -528,7 +541,24 @@ func runC16(c *eng.Ctx) {
 			// acceptance only on the Contains edge
 			te, fe := eng.BoolCheckEdges(f, cs[0].Instr.(ssa.Value))
 			c.Check(len(te) > 0 && len(fe) > 0, fk+":membership-branches", cs[0].Instr, f, "the membership test decides a branch", "")
-			if strings.HasSuffix(fk, ".isSameFamily") {
+			if fk == sameKey && strings.HasSuffix(fk, ".reset") {
+				// in-place form: a row outside the range clears the sameFamily flag, and the rows are then sorted
+				for i, e := range fe {
+					blk := e.B.Succs[e.Succ]
+					cleared := false
+					for _, in := range blk.Instrs {
+						if st, ok := in.(*ssa.Store); ok && eng.StoreField(fiT+".sameFamily")(p, in) {
+							if k, isC := st.Val.(*ssa.Const); isC && k.Value != nil && k.Value.String() == "false" {
+								cleared = true
+							}
+						}
+					}
+					_, sorted := eng.PathExists(eng.PathQuery{Fn: f, After: blk.Instrs[0], Target: func(in ssa.Instruction) bool {
+						return eng.CallTo("sort.Sort", "sort.Stable")(p, in)
+					}})
+					c.Check(cleared && sorted, fmt.Sprintf("%s:outside-row-means-not-same[%d]", fk, i), blk.Instrs[0], f, "a row outside the first row's family range clears the same-family flag and the rows get sorted", "")
+				}
+			} else if strings.HasSuffix(fk, ".isSameFamily") {
 				// "all rows in one family" is answered true only when no row failed the test: the false edge leads to `return false`
 				for i, e := range fe {
 					first := e.B.Succs[e.Succ].Instrs[0]
